@@ -37,3 +37,13 @@ m = {
 }
 json.dump(m, open(os.path.join(ROOT, "MANIFEST.json"), "w"), indent=1)
 print(len(checks), "claimed;", len(na), "not applicable")
+
+# tags every unit generates on the current tree (fallback for units that a later change makes unsupported)
+import sys, multiprocessing as mp
+sys.path.insert(0, os.path.join(ROOT, "checks")); sys.path.insert(0, ROOT)
+import units as U
+if __name__ == "__main__":
+    with mp.Pool(16, maxtasksperchild=8) as pool:
+        dyn = pool.map(U.list_tags, U.all_units(), chunksize=4)
+    json.dump({"%s:%s.%s" % u: t for u, t in dyn if t is not None}, open(os.path.join(ROOT, "checks", "unit_tags.json"), "w"), indent=0)
+    print("unit_tags.json:", sum(1 for u, t in dyn if t is not None), "units")
